@@ -40,6 +40,21 @@ Theorem C17_beneath_sound : forall cb out, beneath cb out = true ->
 Proof. exact beneath_sound. Qed.
 Print Assumptions C17_beneath_sound.
 
+(** The correspondence check judges LOCATION, not spelling: the implementation's output is first
+    cleaned lexically, then tested with [beneath].  That is the proved predicate: whatever [beneath]
+    accepts is already clean (so nothing accepted before is rejected now), the model passes, and an
+    accepted output is — once cleaned — the cleaned base plus ordinary names. *)
+Theorem C17_judged_modulo_clean : forall base,
+  (forall out, beneath (clean base) out = true -> clean out = out /\ beneath (clean base) (clean out) = true)
+  /\ (forall p, base <> [] -> beneath (clean base) (clean (resolve base p)) = true)
+  /\ (forall out, beneath (clean base) (clean out) = true ->
+        exists q, Forall ordinary q /\ clean out = attach (clean base) q).
+Proof.
+  intros base. split; [exact (beneath_clean_out base) | split;
+    [intros p Hb; exact (resolve_beneath_clean base p Hb) | intros out H; exact (beneath_sound _ _ H)]].
+Qed.
+Print Assumptions C17_judged_modulo_clean.
+
 (** A URL path without "." and ".." segments resolves to filepath.Join(base, path). *)
 Theorem C17_dot_free : forall base p, base <> [] -> dot_free p -> resolve base p = join base p.
 Proof. exact resolve_dot_free. Qed.
